@@ -132,13 +132,38 @@ func (w *World) rpcFamily(filters []Filt) int {
 					if api == "v8" && (from.tag == "l1_accepted" || to.tag == "l1_accepted") {
 						continue
 					}
-					for _, withPre := range []bool{false, true} {
+					for _, withPre := range []int{-1, 0, 1, 2} {
 						q := Q{F: f, From: from.n, To: to.n, FromTag: from.tag, ToTag: to.tag, Chunk: 2, Rpc: true, Api: api, L1: l1}
-						if withPre && api != "v8" {
-							q.Pre = pre
+						if withPre >= 0 && api != "v8" {
+							q.Pre, q.PreBack = pre, withPre
+						} else if withPre > 0 {
+							continue
 						}
 						w.quietQuery(q)
 						n++
+					}
+				}
+			}
+		}
+	}
+	// the same ranges on the EventFilter itself (numbers above the head reach pre-confirmed blocks by
+	// number there), with skip counts and chunk cuts inside pre-confirmed blocks (AppendBlockEventsFromReceipts)
+	for fi := 0; fi < len(filters); fi += 3 {
+		f := filters[fi]
+		for _, from := range []struct {
+			tag string
+			n   int
+		}{{"", 0}, {"", head}, {"", head + 1}, {"", head + 2}, {"pre_confirmed", 0}} {
+			for _, to := range []struct {
+				tag string
+				n   int
+			}{{"", head + 1}, {"", head + 2}, {"", head + 9}, {"pre_confirmed", 0}} {
+				for back := 0; back <= 2; back++ {
+					for _, chunk := range []int{1, 2} {
+						for _, limit := range []int{0, 1} {
+							w.quietQuery(Q{F: f, From: from.n, To: to.n, FromTag: from.tag, ToTag: to.tag, Chunk: chunk, Limit: limit, Pre: pre, PreBack: back})
+							n++
+						}
 					}
 				}
 			}
